@@ -28,6 +28,16 @@ def cases(rng, tier):
                        {"op": "redeem", "auth": auth, "code": "code1", "redirect": None, "verifier": verifier},
                        {"op": "redeem", "auth": auth, "code": "code1", "redirect": None, "verifier": verifier}]
                 out.append({"cfg": dict(H.World(req).cfg), "ops": ops})
+    # the token request carries a scope parameter of its own: what is issued is what the resource owner approved, nothing more
+    for approved in (None, "a", "a b"):
+        for asked in ("a", "a b", "c", "a b c"):
+            ops = [{"op": "authorize", "client": "c1", "redirect": "https://c1/cb", "scope": approved, "challenge": None, "method": None, "user": 1, "approve": True},
+                   {"op": "redeem", "auth": ["c1", "client_secret_basic"], "code": "code1", "redirect": "https://c1/cb", "verifier": None, "req_scope": asked}]
+            out.append({"cfg": dict(H.World().cfg), "ops": ops})
+            ops = [{"op": "device_authorize", "auth": ["c1", "client_secret_basic"], "client_id": "c1", "scope": approved},
+                   {"op": "user_decide", "uc": 2, "user": 1, "approve": True},
+                   {"op": "poll", "auth": ["c1", "client_secret_basic"], "dc": "dc1", "req_scope": asked}]
+            out.append({"cfg": dict(H.World().cfg), "ops": ops})
     for variant in ("other-client", "replay", "redirect-mismatch", "redirect-dropped", "redirect-added", "expired", "denied"):
         uri = "https://c1/cb2"
         ops = [{"op": "authorize", "client": "c1", "redirect": None if variant == "redirect-added" else uri, "scope": "a b", "challenge": None, "method": None, "user": 2,
